@@ -10,7 +10,7 @@ use serde_json::json;
 pub static DEF: PropDef = PropDef {
     id: "C12",
     level: "exploration",
-    total: |t| t.pick(64, 3200),
+    total: |t| t.pick(256, 8000),
     run,
     rule: "metamorphic pairs: one C01 decision schedule (writes, reads, deliver/drop/duplicate/reorder, ticks, then 25 fair rounds) executed under ISN pair (i,j) and under a shifted pair chosen so that the sequence space wraps 2^32 or crosses 2^31 during handshake or transfer; per step the emitted segments (flags, length, window, seq relative to the sender's ISN, ack relative to the receiver's ISN), states, delivered byte counts and release points must be identical. Plus comparison primitives mod_lt/leq/gt/geq/bounded against (b-a) mod 2^32 arithmetic for (a,d) with d<2^31, d biased to {0,1,2^31-2,2^31-1}, a around 0/2^31/2^32. Non-trivial pair = the shifted run's sequence numbers actually wrapped/crossed; distinct by (schedule hash, ISNs). Non-trivial primitive sample = distinct (a-class,d-class) tuple.",
     assumptions: &["the unshifted run is not itself an oracle of correctness (C01 is); only equality of the two normalised behaviours is judged"],
